@@ -157,6 +157,18 @@ def main(tier='quick'):
     # several associations of one process are served at the same time (one handler thread each): every query still gets
     # exactly its own matches
     import threading
+    # the application ends its sequence with a final status of its own (failure, cancel, success): that is the one
+    # final response; or it fails (event-handling error) before / while it yields
+    for pol in POLICIES:
+        for fin in (0x0000, 0xC000, 0xFE00, 0xA700):
+            for nm in (0, 1, 3):
+                ms = [(rng.choice(pend), rng.choice([0, 10, 100])) for _ in range(nm)] + [(fin, rng.choice([0, 10]))]
+                tr, extra = K.run_find_scp(rng, pol, rng.choice(K.MIDS), 1, ms, bool(nm % 2), rng.choice([16384, 64]))
+                add(tr, extra, {'svc': 'qr_find_scp', 'policy': str(pol), 'statuses': [m[0] for m in ms], 'final_status_from_application': fin})
+        for fa in (0, 1, 3):
+            ms = [(rng.choice(pend), 10)] * 4
+            tr, extra = K.run_find_scp(rng, pol, rng.choice(K.MIDS), 1, ms, False, 16384, fail_after=fa)
+            add(tr, extra, {'svc': 'qr_find_scp', 'policy': str(pol), 'statuses': [m[0] for m in ms], 'application_fails_after': fa})
     import sys as _sys
     conc = []
 
